@@ -709,6 +709,7 @@ def oracle(R):
                 fail("mt.coherence", "gain", "multitaper coherence changes under channel gains",
                      float(np.abs(a - b).max()), 0)
     fails.extend(access_order_fails(R, check_coh))
+    fails.extend(reuse_fails(R, check_coh))
     return fails
 
 
@@ -784,6 +785,62 @@ def access_order_fails(R, check_coh):
                                       None if pv.shape != vv.shape else float(np.nanmax(np.abs(vv - pv))), 0,
                                       {"entry_point": "%s.%s" % (tag, a), "order": order}))
                     break
+    return fails
+
+
+def reuse_fails(R, check_coh):
+    """Re-use sequences: an analyzer is built on input 1, a random subset of its results is read, then
+    set_input(input 2) with an input of the same shape and sampling rate (a gain-scaled copy of input 1, or other
+    signals) and every result is read again: it must equal the result of a fresh analyzer on input 2, and the
+    coherence must meet the bounds / diagonal / symmetry (and, for the gain-scaled copy, equal that of input 1)."""
+    import random
+    from nitime.timeseries import TimeSeries
+    from nitime.analysis import CoherenceAnalyzer, MTCoherenceAnalyzer
+    d = R.d
+    fails = []
+    rnd = random.Random(d["seed"] * 11 + 3)
+    Fs = d["method"]["Fs"]
+    m = dict(d["method"])
+    g = np.array(d["gains"])[:-1]
+    d2 = dict(R.d0, seed=d["seed"] + 1)
+    seconds = [("gain-scaled", R.x0 * g[:, None]), ("other-signals", make_signals(d2)[0])]
+    makers = [("an", lambda ts: CoherenceAnalyzer(ts, method=dict(m)), AN_ATTRS, True)]
+    if d["N"] <= 300:
+        makers.append(("mt", lambda ts: MTCoherenceAnalyzer(ts, adaptive=True), MT_ATTRS, False))
+        makers.append(("mt", lambda ts: MTCoherenceAnalyzer(ts, adaptive=False), MT_ATTRS, True))
+    for tag, make, attrs, gain_ok in makers:
+        gain_ok = gain_ok and d["kind"] != "mt_adaptive"
+        which, x2 = seconds[rnd.randrange(2)]
+        B = make(TimeSeries(np.array(R.x0), sampling_rate=Fs))
+        first = {}
+        for a in rnd.sample(attrs, rnd.randint(1, len(attrs))):
+            first[a] = np.array(getattr(B, a), copy=True)
+        if "coherence" not in first:
+            first["coherence"] = None
+        B.set_input(TimeSeries(np.array(x2), sampling_rate=Fs))
+        Fr = make(TimeSeries(np.array(x2), sampling_rate=Fs))
+        for a in rnd.sample(attrs, len(attrs)):
+            try:
+                v, w = np.asarray(getattr(B, a)), np.asarray(getattr(Fr, a))
+            except Exception as e:
+                fails.append(Fail("C08/%s.%s/re-use" % (tag, a), "reading .%s after set_input raised %s" % (a, type(e).__name__),
+                                  None, None, {"entry_point": "%s.%s" % (tag, a), "second_input": which}))
+                break
+            if v.shape != w.shape or not np.allclose(v, w, rtol=1e-12, atol=0, equal_nan=True):
+                fails.append(Fail("C08/%s.%s/re-use" % (tag, a),
+                                  ".%s after set_input(%s input; first read: %s) differs from a fresh analyzer on that input" % (
+                                      a, which, sorted(first)),
+                                  None if v.shape != w.shape else float(np.nanmax(np.abs(v - w))), 0,
+                                  {"entry_point": "%s.%s" % (tag, a), "second_input": which}))
+                break
+        c = np.asarray(B.coherence)
+        check_coh("%s.coherence(re-used)" % tag, c)
+        if which == "gain-scaled" and gain_ok and first.get("coherence") is not None:
+            if c.shape != first["coherence"].shape or np.abs(c - first["coherence"]).max() > 1e-9:
+                fails.append(Fail("C08/%s.coherence/re-use-gain" % tag,
+                                  "coherence after set_input(gain-scaled copy) differs from the coherence of the original input",
+                                  float(np.abs(c - first["coherence"]).max()), 0,
+                                  {"entry_point": "%s.coherence" % tag, "second_input": which}))
     return fails
 
 
